@@ -220,7 +220,16 @@ impl<'a> HistRunner<'a> {
     fn open(&mut self) -> Result<(), Failure> {
         match open_caught(&self.hist.cfg, &self.dir) {
             Ok(kv) => {
-                self.h = Some(kv.get_handle());
+                let h = kv.get_handle();
+                // a get on an empty reader pool never returns: report it instead of hanging
+                let d = h.verif_dump();
+                if d.readers_len == 0 {
+                    return Err(fail(
+                        "reader-pool-empty",
+                        format!("after open (concurrency = {}) the reader pool holds 0 of {} readers: every get would spin forever", self.hist.cfg.concurrency, d.readers_capacity),
+                    ));
+                }
+                self.h = Some(h);
                 self.kv = Some(kv);
                 Ok(())
             }
